@@ -301,17 +301,31 @@ fn limit_cases() -> Vec<LimitCase> {
         m.funcs[0].locals.push(VT::I64);
         add("2 params + 1023 locals", m.encode(), false, false);
     }
-    // memory limits
-    for (min, max, ok) in [(32u32, None, true), (33, None, false), (0, Some(65536u32), true), (0, Some(65537), false), (2, Some(1), false), (32, Some(32), true), (1, Some(0x7FFF_FFFF), false)] {
-        let mut m = base_module();
-        m.memory = Some((min, max));
-        add(&format!("memory min {min} max {max:?}"), m.encode(), ok, ok);
+    // memory limits: the full grid of boundary values for (min, max). Valid iff the initial
+    // size is at most 32 pages and, when a maximum is given, min <= max <= 65536.
+    for min in [0u32, 1, 31, 32, 33, 511, 512, 513, 65535, 65536, 65537] {
+        for max in [None, Some(0u32), Some(1), Some(32), Some(33), Some(512), Some(65535), Some(65536), Some(65537), Some(u32::MAX)] {
+            let ok = min <= 32 && max.map(|m| min <= m && m <= 65536).unwrap_or(true);
+            let mut m = base_module();
+            m.memory = Some((min, max));
+            // touch the last byte of the initial memory so that an accepted oversized memory
+            // is also executed
+            if min > 0 {
+                m.types.push(FuncType { params: vec![], result: Some(VT::I32) });
+                m.funcs.push(Func { ty: 2, locals: vec![], body: vec![Instr::I32Const((min.wrapping_mul(65536)).wrapping_sub(1) as i32), Instr::Load(0x2D, 0, 0)] });
+                m.exports.push(("last".into(), ExportKind::Func(1)));
+            }
+            add(&format!("memory min {min} max {max:?}"), m.encode(), ok, ok);
+        }
     }
-    // table limits
-    for (min, max, ok) in [(1000u32, None, true), (1001, None, false), (0, Some(5u32), true), (3, Some(2), false)] {
-        let mut m = base_module();
-        m.table = Some((min, max));
-        add(&format!("table min {min} max {max:?}"), m.encode(), ok, ok);
+    // table limits: valid iff min <= 1000 and, when a maximum is given, min <= max
+    for min in [0u32, 1, 999, 1000, 1001, 65536] {
+        for max in [None, Some(0u32), Some(1), Some(999), Some(1000), Some(1001), Some(u32::MAX)] {
+            let ok = min <= 1000 && max.map(|m| min <= m).unwrap_or(true);
+            let mut m = base_module();
+            m.table = Some((min, max));
+            add(&format!("table min {min} max {max:?}"), m.encode(), ok, ok);
+        }
     }
     // globals
     for (n, ok) in [(1024usize, true), (1025, false)] {
